@@ -130,6 +130,11 @@ func (tx *Tx) Rollback() error {
 		}
 	}
 
+	// in XA mode there is no local transaction behind the proxy (the branch is ended by XA statements)
+	if tx.target == nil {
+		return nil
+	}
+
 	return tx.target.Rollback()
 }
 
@@ -140,6 +145,10 @@ func (tx *Tx) init() error {
 
 // commitOnLocal
 func (tx *Tx) commitOnLocal() error {
+	// in XA mode there is no local transaction behind the proxy (the branch is ended by XA statements)
+	if tx.target == nil {
+		return nil
+	}
 	return tx.target.Commit()
 }
 
